@@ -156,6 +156,23 @@ def handle (op : String) (fs : List (String × String)) : String :=
       | .err _ => "na"
       | .panic _ => "panic"
     | _, _ => "bad-case"
+  else if op == "cmapx.mac0" then
+    -- property predicate: a (1,0) format 0 subtable maps the rune of each MacRoman code to its glyph
+    match (getField fs "bytes").bind fromHex, (getField fs "codes").bind parseNatList with
+    | some b, some codes =>
+      match decode0 b with
+      | .ok _ => lookups (spec0Rune macRoman b) codes
+      | .err _ => "na"
+      | .panic _ => "panic"
+    | _, _ => "bad-case"
+  else if op == "cmapx.install" then
+    match (getField fs "map").bind parsePairs with
+    | some ps =>
+      let m := sortPairs ps
+      match Cmap12.encode m 0 with
+      | some b => "ok:" ++ showTab (sortTab (install (codeRangeHigh12 m) b))
+      | none => "panic"
+    | none => "bad-case"
   else if op == "cmapx.dec6" then
     match (getField fs "bytes").bind fromHex, (getField fs "mac").bind String.toNat? with
     | some b, some mac =>
